@@ -4,8 +4,15 @@ from .common import recv_job
 from .fsm_common import fsm_job
 from .sync_common import *
 
-INFO = {"outside": "wip", "assumptions": []}
-MANIFEST = {"text": "wip", "note": "wip"}
+INFO = {
+    "outside": 'as C04/C03/C05',
+    "assumptions": ['as C03, C05'],
+}
+MANIFEST = {
+    "text": 'Four solver-checked layers on real code: rtr_receive_pdu on an arbitrary stream (version lowered exactly when the first PDU of a connection carries a lower supported version; any other mismatch refused with Unexpected-Protocol-Version and its payload never read; EOD only in its own format; TR_CLOSED reported as such); rtr_sync skeletons (hang-up before any session lowers the version and reconnects at once; Unsupported-Version report handling); k-step FSM (version never increases, first-PDU flag cleared on every connect, every query carries the negotiated version).',
+    "note": 'Bounded: L = 48/96 bytes, skeleton families, B = 8/12.',
+    "technique": 'CBMC on real rtr_receive_pdu / rtr_sync / rtr_fsm_start with version bytes symbolic',
+}
 
 
 def jobs(tier):
